@@ -42,6 +42,23 @@ ENVIRONS = [
 ]
 # Location values: absolute, path-absolute, and relative forms that keep (part of) the base path
 LOCATIONS = ["edit", "?page=2", "", "#frag", "sub/\u00e9", "./", "../x", "/abs", "//other.example/p", "http://example.com/\u00e9?q=\u00fc", "/a b", "x y?z=\u00e4"]
+# absolute / network-path IRIs whose *host* has labels the IDNA codec may refuse (mixed-direction
+# text, a label longer than 63 octets once punycoded, an empty label, a prohibited code point) or
+# accepts in unusual form (hyphen edges, IDN): whatever is handed to the server must be ASCII; an
+# exception before anything is handed over is not a C05 matter
+IDNA_LOCATIONS = [
+    "http://\u05d0a.example/next",
+    "http://" + "\u00fc" * 60 + ".example/p",
+    "http://a..example/x",
+    "http://a\u2028b.example/",
+    "//\u05d0a.example/rel",
+    "http://\u0627\u0644a.example/?q=1",
+    "http://-\u00e9.example/",
+    "http://b\u00fccher.example:8080/\u00fc?\u00e4#\u00f6",
+    "http://\u2603.net/p\u00e5th",
+    "http://us\u00e9r:p\u00e4ss@\u05d0\u05d1.example/",
+]
+LOCATIONS += IDNA_LOCATIONS
 
 
 def item_bytes(it):
@@ -100,7 +117,7 @@ class WsgiStream(Stream):
     name = "wsgi-response"
     _cache: dict = {}
 
-    STATUSES = [["i", c] for c in (100, 101, 199, 200, 201, 204, 206, 301, 302, 304, 400, 404, 500, 599)] + [["h", 404], ["h", 204], ["h", 100]] + [["s", s] for s in ("200 OK", "204 No Content", "304", "404 Not Found", "299 Custom", " 204 ", "foo", "101 Switching")]
+    STATUSES = [["i", c] for c in (100, 101, 199, 200, 201, 204, 206, 301, 302, 304, 400, 404, 500, 599)] + [["h", 404], ["h", 204], ["h", 100]] + [["s", s] for s in ("200 OK", "204 No Content", "304", "404 Not Found", "299 Custom", " 204 ", "foo", "101 Switching", "2_00", "200\t OK", "+404", "20\x1f4 x")]
     ITEMS = [["t", "ab"], ["b", ""], ["t", "é"], ["b", "6364ff"]]
     BODIES = [
         ["N", []],
@@ -224,7 +241,7 @@ class WsgiStream(Stream):
         body, gen = self.build_body(case, log)
         st = case["status"]
         status = st[1] if st[0] != "h" else HTTPStatus(st[1])
-        info = {"ctor": None, "dirty": None, "loc": None, "cloc": None}
+        info = {"ctor": None, "dirty": None, "loc": None, "cloc": None, "url_exc": None}
         try:
             r = Response(body, status=status, headers=[(k, v) for k, v in case["hinit"]], direct_passthrough=bool(case["dp"]))
         except Exception as e:  # noqa: BLE001
@@ -246,13 +263,40 @@ class WsgiStream(Stream):
         environ = dict(ENVIRONS[case.get("env", 0)], REQUEST_METHOD=case["method"])
         # the opaque URL conversions, by the same library calls get_wsgi_headers makes
         locs = r.headers.getlist("Location")
-        if locs:
+        clocs = r.headers.getlist("Content-Location")
+        # a Location / Content-Location the URL conversion refuses (urlsplit ValueError, IDNA
+        # UnicodeError): get_wsgi_response raises before anything is handed to the server - not a
+        # C05 matter, and outside the model (oracle-only case: *if* something is handed over it
+        # must still be well-formed)
+        try:
+            for u in (locs[-1:] + clocs[-1:]):
+                iri_to_uri(u)
+        except (ValueError, UnicodeError) as e:
+            info["url_exc"] = type(e).__name__
+            try:
+                app_iter, status_line, headers = r.get_wsgi_response(environ)
+            except (ValueError, UnicodeError) as e2:
+                return "ops=[" + ",".join(outs) + "]|wsgi=!" + type(e2).__name__, info
+            # the conversion failed outside but the response went out: fall through to the
+            # ordinary checks on what was handed over
+            info["url_exc"] = None
+            info["laws"] = [f"iri_to_uri refused a Location ({type(e).__name__}) that get_wsgi_response let through"]
+        if locs and not info.get("url_exc") and not info.get("laws"):
             from urllib.parse import urljoin
 
             from urllib.parse import urlsplit
 
             loc = iri_to_uri(locs[-1])
             laws = []
+            # the IDNA law of UrlLaws.split_host, checked on the real call path: the host that
+            # iri_to_uri puts into its result is ASCII
+            for u in (locs[-1], get_current_url(environ, strip_querystring=True)):
+                try:
+                    hh = urlsplit(iri_to_uri(u)).hostname
+                except (ValueError, UnicodeError):
+                    hh = None
+                if hh and not hh.isascii():
+                    laws.append(f"iri_to_uri({u!r}) keeps a non-ASCII host {hh!r} (IDNA law)")
             # the assumed laws of the opaque primitives (UrlLaws in Props/C05.lean), checked on
             # the real functions for the inputs of this case
             for u in (locs[-1], get_current_url(environ, strip_querystring=True)):
@@ -272,7 +316,6 @@ class WsgiStream(Stream):
                 loc = joined
             info["loc"] = loc
             info["laws"] = laws
-        clocs = r.headers.getlist("Content-Location")
         if clocs:
             info["cloc"] = iri_to_uri(clocs[-1])
         app_iter, status_line, headers = r.get_wsgi_response(environ)
@@ -309,7 +352,7 @@ class WsgiStream(Stream):
 
     def model_line(self, case):
         info = self.info(case)
-        if info is None:
+        if info is None or info.get("url_exc"):
             return None
         st = case["status"]
         status = ("s" + hs(st[1])) if st[0] == "s" else f"i{st[1]}"
@@ -334,6 +377,8 @@ class WsgiStream(Stream):
             if info["ctor"] == "ValueError" and (bad_init or empty_status):
                 return None
             return f"constructor raised {info['ctor']}"
+        if info.get("url_exc"):
+            return None  # nothing was handed to the server
         if info.get("laws"):
             return "assumed law of an opaque URL primitive fails: " + info["laws"][0]
         if info["dirty"] is not None:
@@ -368,7 +413,11 @@ class WsgiStream(Stream):
         if case["body"][0] in ("G", "C", "F"):
             want.append("wrapped")
         if sorted(log) != sorted(want):
-            pre = "F05: " if (case["dp"] and not bodyless) else ""
+            # F05 has one specific shape: direct passthrough with a body to send, the wrapped
+            # iterable's own close ran exactly once (when it has one) and *no* callback ran at all.
+            # Callbacks run twice, some but not all, or a lost `wrapped` close are not F05.
+            raw_only = ["wrapped"] if case["body"][0] in ("G", "C", "F") else []
+            pre = "F05: " if (case["dp"] and not bodyless and case["ncb"] > 0 and sorted(log) == raw_only) else ""
             return pre + f"close log {sorted(log)} != every callback exactly once {sorted(want)}"
         return None
 
@@ -385,6 +434,8 @@ class WsgiStream(Stream):
         info = self.info(case)
         if info is None or real_out.startswith("EXC:"):
             return real_out[:40]
+        if info.get("url_exc"):
+            return "location refused by the URL conversion: " + info["url_exc"]
         code = info["status_code"]
         cls = "1xx" if 100 <= code < 200 else str(code) if code in (204, 304) else "other"
         return f"{case['body'][0]} {case['method']} {cls} dp={case['dp']} env={case.get('env', 0)} ac={case['autocorrect']}"
@@ -404,16 +455,423 @@ class WsgiStream(Stream):
         return True
 
 
+class HistoryStream(Stream):
+    """Histories on ONE response object between construction and the server closing what it was
+    handed: call_on_close (also after get_wsgi_response), get_data(), make_sequence(), freeze(),
+    set_data(), explicit close() / `with response:`, get_wsgi_response(environ), the server pulling
+    any number of chunks (bodies closed early) and closing - with implicit_sequence_conversion and
+    automatically_set_content_length on or off. Compared with Model.Response.nextEv (driver `hist`).
+    Oracle = the property on what the server got: chunks are bytes, no body for HEAD / 1xx / 204 /
+    304, a Content-Length werkzeug computed equals the bytes of a fully delivered body, and - for
+    histories whose only close is the server closing the iterable once - every registered callback
+    and the wrapped iterable's own close ran exactly once."""
+
+    name = "response-history"
+    _cache: dict = {}
+    BODIES = [["L", [["t", "ab"], ["b", ""], ["t", "é"]]], ["C", [["b", "6162"], ["t", "é"], ["b", "63"]]], ["I", [["b", "61"], ["b", "6263"]]], ["S", [["t", "héllo"]]], ["T", [["b", "78"], ["t", "y"]]], ["B", [["b", "00ff41"]]], ["C", []], ["N", []], ["C", [["b", "6162"], ["b", "63"]]], ["L", [["b", "61"], ["b", ""], ["b", "6263"]]]]
+    BYTES_BODIES = [b for b in BODIES if all(i[0] == "b" for i in b[1])]
+    EVS = [["cb"], ["getdata"], ["makeseq"], ["freeze"], ["setdata", "787980"], ["close"], ["wsgi", "GET"], ["wsgi", "HEAD"], ["take", 1], ["take", 99], ["iterclose"]]
+    corpus = [
+        # F05b (known): freeze() consumes a closable iterator without taking over its close
+        {"status": ["i", 200], "dp": 0, "body": ["C", [["b", "6162"]]], "implicit": 1, "auto": 1, "hinit": [], "evs": [["cb"], ["freeze"], ["wsgi", "GET"], ["take", 99], ["iterclose"]]},
+        # call_on_close after get_app_iter; a body closed early; close() twice
+        {"status": ["i", 200], "dp": 0, "body": ["C", [["b", "6162"], ["b", "63"]]], "implicit": 1, "auto": 1, "hinit": [], "evs": [["cb"], ["wsgi", "GET"], ["cb"], ["take", 1], ["iterclose"]]},
+        {"status": ["i", 200], "dp": 0, "body": ["C", [["b", "6162"]]], "implicit": 1, "auto": 1, "hinit": [], "evs": [["cb"], ["wsgi", "GET"], ["take", 99], ["iterclose"], ["close"]]},
+    ]
+
+    def mk(self, status, dp, body, evs, implicit=1, auto=1, hinit=()):
+        return {"status": status, "dp": dp, "body": body, "implicit": implicit, "auto": auto, "hinit": [list(p) for p in hinit], "evs": [list(e) for e in evs]}
+
+    def cases(self, rng, tier):
+        quick = tier == "quick"
+        core = self.BODIES[:4]
+        for body in core:
+            for n in (0, 1, 2, 3):
+                for evs in itertools.product(self.EVS, repeat=n):
+                    yield self.mk(["i", 200], 0, body, evs)
+        for body in self.BODIES:
+            for status in (["i", 204], ["i", 304], ["i", 100], ["s", "404 Not Found"]):
+                for evs in itertools.product(self.EVS, repeat=2):
+                    yield self.mk(status, 0, body, evs)
+            if all(i[0] == "b" for i in body[1]):  # direct passthrough is for iterables of bytes
+                for evs in itertools.product(self.EVS, repeat=2):
+                    yield self.mk(["i", 200], 1, body, evs)
+            for implicit, auto in ((0, 1), (1, 0), (0, 0)):
+                for evs in itertools.product(self.EVS, repeat=2):
+                    yield self.mk(["i", 200], 0, body, evs, implicit=implicit, auto=auto)
+        for _ in range(1500 if quick else 30000):
+            evs = [rng.choice(self.EVS) for _ in range(rng.randrange(3, 9))]
+            dp = int(rng.random() < 0.2)
+            yield self.mk(rng.choice([["i", 200], ["i", 200], ["i", 204], ["i", 304], ["s", "201 Created"], ["i", 101]]), dp, rng.choice(self.BYTES_BODIES if dp else self.BODIES), evs, implicit=int(rng.random() < 0.8), auto=int(rng.random() < 0.8), hinit=rng.choice([[], [["Content-Length", "2"]], [["ETag", '"x"']]]))
+
+    def run(self, case):
+        from hashlib import sha1
+
+        from werkzeug.wrappers import Response
+
+        log = []
+        kind, items = case["body"]
+        vals = [(it[1] if it[0] == "t" else bytes.fromhex(it[1])) for it in items]
+        if kind == "N":
+            body = None
+        elif kind in ("S", "B"):
+            body = vals[0]
+        elif kind == "L":
+            body = list(vals)
+        elif kind == "T":
+            body = tuple(vals)
+        elif kind == "C":
+            body = Closable(vals, log)
+        else:
+            body = iter(list(vals))
+
+        class R(Response):
+            implicit_sequence_conversion = bool(case["implicit"])
+            automatically_set_content_length = bool(case["auto"])
+
+        st = case["status"]
+        info = {"ctor": None, "ncb": 0}
+        try:
+            r = R(body, status=st[1], headers=[(k, v) for k, v in case["hinit"]], direct_passthrough=bool(case["dp"]))
+        except Exception as e:  # noqa: BLE001
+            info["ctor"] = type(e).__name__
+            return "!" + type(e).__name__, info
+        outs = []
+        app_iter = it = None
+        wsgi = None
+        sent = []
+        etags = []
+        for ev in case["evs"]:
+            n = ev[0]
+            try:
+                if n == "cb":
+                    i = info["ncb"]
+                    info["ncb"] += 1
+                    r.call_on_close(lambda i=i: log.append(f"cb{i}"))
+                    res = "~"
+                elif n == "getdata":
+                    res = "d" + (r.get_data().hex() or "-")
+                elif n == "makeseq":
+                    r.make_sequence()
+                    res = "~"
+                elif n == "freeze":
+                    r.freeze()
+                    res = "~"
+                elif n == "setdata":
+                    r.set_data(bytes.fromhex(ev[1]))
+                    res = "~"
+                elif n == "close":
+                    r.close()
+                    res = "~"
+                elif n == "wsgi":
+                    environ = dict(ENVIRON, REQUEST_METHOD=ev[1])
+                    app_iter, status_line, headers = r.get_wsgi_response(environ)
+                    it = iter(app_iter)
+                    wsgi = (status_line, headers, ev[1], len(sent))
+                    res = "~"
+                elif n == "take":
+                    if it is not None:
+                        for _ in range(ev[1]):
+                            try:
+                                sent.append(next(it))
+                            except StopIteration:
+                                break
+                    res = "~"
+                elif n == "iterclose":
+                    if app_iter is not None and hasattr(app_iter, "close"):
+                        app_iter.close()
+                    res = "~"
+                else:
+                    raise AssertionError(ev)
+            except RuntimeError:
+                res = "!RuntimeError"
+            outs.append(res)
+        info.update(status_code=r.status_code, wsgi=wsgi, sent=sent, log=list(log))
+        counts = ",".join(f"{k}x{log.count(k)}" for k in sorted(set(log)))
+        out = ";".join(outs) + "|status=" + (o_s(wsgi[0]) if wsgi else "~") + "|headers=" + (o_pairs(wsgi[1]) if wsgi else "~") + "|sent=" + hx(b"".join(x if isinstance(x, bytes) else x.encode() for x in sent)) + "|close=[" + counts + "]"
+        return out, info
+
+    def real(self, case):
+        out, info = self.run(case)
+        self._cache[json.dumps(case, sort_keys=True)] = info
+        return out
+
+    def info(self, case):
+        key = json.dumps(case, sort_keys=True)
+        if key not in self._cache:
+            try:
+                self.real(case)
+            except Exception:  # noqa: BLE001
+                self._cache[key] = None
+        return self._cache.get(key)
+
+    def model_line(self, case):
+        from hashlib import sha1
+
+        info = self.info(case)
+        if info is None:
+            return None
+        st = case["status"]
+        status = ("s" + hs(st[1])) if st[0] == "s" else f"i{st[1]}"
+        kind, items = case["body"]
+        body = kind + ":" + "/".join(e_item(i) for i in items)
+        # freeze() needs generate_etag(data) = SHA-1 of the body bytes at that moment (opaque): the
+        # harness recomputes the data the same way the model does - by replaying on a twin object
+        evs = []
+        twin = self.twin_data(case)
+        for i, ev in enumerate(case["evs"]):
+            n = ev[0]
+            if n == "cb":
+                evs.append(f"cb,{sum(1 for e in case['evs'][:i] if e[0] == 'cb')}")
+            elif n == "freeze":
+                evs.append("freeze," + hs(sha1(twin[i]).hexdigest()))
+            elif n == "setdata":
+                evs.append("setdata," + (ev[1] or "-"))
+            elif n == "wsgi":
+                evs.append(f"wsgi,{ev[1]},~,~")
+            elif n == "take":
+                evs.append(f"take,{ev[1]}")
+            else:
+                evs.append(n)
+        return "\t".join(["hist", status, str(case["dp"]), body, str(case["implicit"]), str(case["auto"]), e_pairs(case["hinit"])] + evs)
+
+    def twin_data(self, case):
+        """the body bytes a freeze() at position i would hash: what is left of the body at that
+        moment (computed without werkzeug: items not yet pulled by the server / not yet replaced)"""
+        kind, items = case["body"]
+        rest = [item_bytes(i) for i in items]
+        stream = kind in ("C", "I")
+        shared = False  # a held iterator consumes the streamed body in place
+        out = {}
+        bodyless = False
+        for i, ev in enumerate(case["evs"]):
+            n = ev[0]
+            if n == "freeze":
+                out[i] = b"".join(rest)
+                stream = False
+                shared = False
+            elif n == "setdata":
+                rest = [bytes.fromhex(ev[1])]
+                stream = False
+                shared = False
+            elif n in ("getdata", "makeseq"):
+                if stream and not (n == "getdata" and (case["dp"] or not case["implicit"])):
+                    stream = False
+                    shared = False
+            elif n == "wsgi":
+                code = self.code(case)
+                bodyless = ev[1] == "HEAD" or 100 <= code < 200 or code in (204, 304)
+                shared = stream and not bodyless
+            elif n == "take" and shared:
+                rest = rest[ev[1] :]
+        return out
+
+    @staticmethod
+    def code(case):
+        st = case["status"]
+        if st[0] == "i":
+            return st[1]
+        try:
+            return int(st[1].split()[0])
+        except ValueError:
+            return 0
+
+    def oracle(self, case, real_out):
+        info = self.info(case)
+        if real_out.startswith("EXC:") or info is None:
+            return f"unexpected exception {real_out}"
+        if info["ctor"] is not None:
+            return f"constructor raised {info['ctor']}"
+        evs = [e[0] for e in case["evs"]]
+        code = info["status_code"]
+        for x in info["sent"]:
+            if not isinstance(x, bytes):
+                return "body chunk is not bytes"
+        wsgi = info["wsgi"]
+        if wsgi is not None:
+            status_line, headers, method, sent_before = wsgi
+            for k, v in headers:
+                if type(k) is not str or type(v) is not str or "\r" in v or "\n" in v:
+                    return f"header {k!r}: {v!r} is not a clean pair of native strings"
+            bodyless = method == "HEAD" or 100 <= code < 200 or code in (204, 304)
+            got = b"".join(info["sent"][sent_before:])
+            if bodyless and got:
+                return f"body bytes sent for {method} / status {code}"
+            cl = [v for k, v in headers if k.lower() == "content-length"]
+            if (100 <= code < 200 or code == 204) and cl:
+                return f"Content-Length sent with status {code}"
+            last = len(evs) - 1 - evs[::-1].index("wsgi")
+            after = case["evs"][last + 1 :]
+            # the whole body was delivered: a `take 99` right after, before anything else consumed,
+            # replaced or closed what the server holds
+            full = ["take", 99] in after and not any(e[0] in ("getdata", "makeseq", "freeze", "setdata", "iterclose") for e in after[: after.index(["take", 99])])
+            preset = any(k.lower() == "content-length" for k, _ in case["hinit"])
+            if cl and not preset and not bodyless and full and evs.count("wsgi") == 1:
+                if len(cl) != 1 or not cl[0].isdigit() or int(cl[0]) != len(got):
+                    return f"computed Content-Length {cl} but {len(got)} body bytes were produced"
+        # close exactly once: histories whose only close is the server closing the iterable it got
+        if evs.count("wsgi") == 1 and evs.count("iterclose") == 1 and "close" not in evs and "setdata" not in evs and evs.index("wsgi") < evs.index("iterclose"):
+            log = info["log"]
+            upto = evs.index("iterclose")
+            want = [f"cb{i}" for i in range(evs[:upto].count("cb"))]
+            if case["body"][0] == "C":
+                want.append("wrapped")
+            if sorted(log) != sorted(want):
+                method = wsgi[2]
+                bodyless = method == "HEAD" or 100 <= code < 200 or code in (204, 304)
+                pre = ""
+                # narrow shapes of the two known findings
+                # F05: the raw iterable is handed out; its own close runs (when it still is the
+                # closable stream: make_sequence before that turns it into a list and moves the
+                # close into the callbacks) and no callback runs
+                converted = any(e in ("makeseq", "freeze") for e in evs[: evs.index("wsgi")])
+                raw_only = ["wrapped"] if (case["body"][0] == "C" and not converted) else []
+                if case["dp"] and not bodyless and want != raw_only and sorted(log) == raw_only and "freeze" not in evs[: evs.index("wsgi")]:
+                    pre = "F05: "
+                elif "freeze" in evs[:upto] and case["body"][0] == "C" and sorted(log) == sorted(w for w in want if w != "wrapped"):
+                    # freeze() came before anything else consumed the closable body
+                    first = min(i for i, e in enumerate(evs) if e in ("freeze", "getdata", "makeseq"))
+                    if evs[first] == "freeze" or (evs[first] == "getdata" and (case["dp"] or not case["implicit"])):
+                        pre = "F05b: "
+                return pre + f"close log {sorted(log)} != every callback and the wrapped close exactly once {sorted(want)}"
+        return None
+
+    def finding_key(self, case, what):
+        m = re.match(r"(F05b?): ", what)
+        return m.group(1) if m else None
+
+    def nontrivial(self, case, real_out):
+        return len(case["evs"]) > 0 and not real_out.startswith("!")
+
+    def bucket(self, case, real_out):
+        n = len(case["evs"])
+        return f"{case['body'][0]} dp={case['dp']} len={n if n < 4 else '4+'}"
+
+    def mutate(self, case, rng):
+        evs = case["evs"]
+        for i in range(len(evs)):
+            yield dict(case, evs=evs[:i] + evs[i + 1 :])
+
+    def exhaustive(self, tier):
+        return True
+
+
+class FromAppStream(Stream):
+    """`Response.from_app(inner, environ, buffered)` / `Response.force_type(app, environ)` with another
+    Response as the WSGI application: callbacks on the inner and the outer response, then the outer is
+    served and closed. vs driver `fromapp` (the outer body is a closable stream whose close is the
+    inner ClosingIterator's). Oracle: every callback of both responses and the inner body's own
+    close ran exactly once; the bytes sent are the inner body (when both may carry one)."""
+
+    name = "from-app"
+    _cache: dict = {}
+    BODIES = [["L", [["t", "ab"], ["b", ""], ["t", "é"]]], ["C", [["b", "6162"], ["t", "é"], ["b", "63"]]], ["I", [["b", "61"], ["b", "6263"]]], ["S", [["t", "héllo"]]], ["C", []], ["L", []]]
+
+    def cases(self, rng, tier):
+        for body, st, how, mi, mo, take in itertools.product(self.BODIES, (["i", 200], ["i", 204], ["s", "404 Not Found"], ["i", 304]), ("from_app", "from_app_buffered", "force_type"), ("GET", "HEAD"), ("GET", "HEAD"), (None, 0, 1)):
+            for ncb in ((1, 1), (0, 2), (2, 0)):
+                yield {"status": st, "body": body, "how": how, "mi": mi, "mo": mo, "take": take, "ncb": list(ncb)}
+
+    def run(self, case):
+        from werkzeug.wrappers import Response
+
+        log = []
+        kind, items = case["body"]
+        vals = [(it[1] if it[0] == "t" else bytes.fromhex(it[1])) for it in items]
+        body = vals[0] if kind == "S" else list(vals) if kind == "L" else Closable(vals, log) if kind == "C" else iter(list(vals))
+        inner = Response(body, status=case["status"][1])
+        for i in range(case["ncb"][0]):
+            inner.call_on_close(lambda i=i: log.append(f"cb{i}"))
+        env_i = dict(ENVIRON, REQUEST_METHOD=case["mi"])
+        if case["how"] == "force_type":
+            outer = Response.force_type(lambda e, sr: inner(e, sr), env_i)
+        else:
+            outer = Response.from_app(inner, env_i, buffered=case["how"] == "from_app_buffered")
+        for i in range(case["ncb"][1]):
+            outer.call_on_close(lambda i=i: log.append(f"cb{100 + i}"))
+        app_iter, status_line, headers = outer.get_wsgi_response(dict(ENVIRON, REQUEST_METHOD=case["mo"]))
+        sent = []
+        it = iter(app_iter)
+        n = 0
+        while case["take"] is None or n < case["take"]:
+            try:
+                sent.append(next(it))
+            except StopIteration:
+                break
+            n += 1
+        if hasattr(app_iter, "close"):
+            app_iter.close()
+        info = {"inner_code": inner.status_code, "outer_code": outer.status_code, "log": list(log), "sent": sent, "headers": headers}
+        o = ",".join(f"{k}x{log.count(k)}" for k in sorted(set(log)) if k.startswith("cb1") and len(k) > 4)
+        i = ",".join(f"{k}x{log.count(k)}" for k in sorted(set(log)) if not (k.startswith("cb1") and len(k) > 4))
+        out = "status=" + o_s(status_line) + "|headers=" + o_pairs(headers) + "|sent=" + hx(b"".join(sent)) + "|outer=[" + o + "]|inner=[" + i + "]"
+        return out, info
+
+    def real(self, case):
+        out, info = self.run(case)
+        self._cache[json.dumps(case, sort_keys=True)] = info
+        return out
+
+    def model_line(self, case):
+        st = case["status"]
+        status = ("s" + hs(st[1])) if st[0] == "s" else f"i{st[1]}"
+        kind, items = case["body"]
+        body = kind + ":" + "/".join(e_item(i) for i in items)
+        return "\t".join(["fromapp", status, body, str(case["ncb"][0]), "1" if case["how"] == "from_app_buffered" else "0", case["mi"], str(case["ncb"][1]), case["mo"], "~" if case["take"] is None else str(case["take"])])
+
+    def oracle(self, case, real_out):
+        if real_out.startswith("EXC:"):
+            return f"unexpected exception {real_out}"
+        key = json.dumps(case, sort_keys=True)
+        if key not in self._cache:
+            self.real(case)
+        info = self._cache[key]
+        log = info["log"]
+        want = [f"cb{i}" for i in range(case["ncb"][0])] + [f"cb{100 + i}" for i in range(case["ncb"][1])]
+        if case["body"][0] == "C":
+            want.append("wrapped")
+        if sorted(log) != sorted(want):
+            return f"close log {sorted(log)} != every callback of both responses and the inner close exactly once {sorted(want)}"
+        for x in info["sent"]:
+            if not isinstance(x, bytes):
+                return "body chunk is not bytes"
+
+        def bodyless(m, c):
+            return m == "HEAD" or 100 <= c < 200 or c in (204, 304)
+
+        data = b"".join(item_bytes(i) for i in case["body"][1])
+        if bodyless(case["mo"], info["outer_code"]) and info["sent"]:
+            return "body bytes sent by a bodyless outer response"
+        if case["take"] is None and not bodyless(case["mo"], info["outer_code"]) and not bodyless(case["mi"], info["inner_code"]):
+            if b"".join(info["sent"]) != data:
+                return "the outer response did not send the inner body"
+            cl = [v for k, v in info["headers"] if k.lower() == "content-length"]
+            if cl and (len(cl) != 1 or int(cl[0]) != len(data)):
+                return f"Content-Length {cl} but {len(data)} bytes sent"
+        return None
+
+    def bucket(self, case, real_out):
+        return f"{case['how']} {case['body'][0]} {case['mi']}/{case['mo']}"
+
+    def exhaustive(self, tier):
+        return True
+
+
 CHECK = Check(
     prop="C05",
-    gen=["Containers", "Views", "Response"],
-    modules=["WzVerif.Props.C05"],
-    streams=[WsgiStream()],
+    gen=["Containers", "Views", "Response", "Http", "PyFns_Internal", "PyFns_Range", "PyFns_Response"],
+    modules=["WzVerif.Props.C05", "WzVerif.Props.C05T"],
+    streams=[WsgiStream(), HistoryStream(), FromAppStream()],
     assumptions=[
+        "round 3 (Props/C05T): Response._clean_status (str and int arguments) and the iterable choice of Response.get_app_iter are regenerated from the source by tools/py2lean.py (Gen/PyFns_Response.lean) on every run and proved equal to the hand model (cleanStatus with HTTP_STATUS_CODES = the regenerated table, bodyless / getAppIter) for all inputs; int(code_str) is C06's hand model Http.pyInt on both sides",
         "Location / Content-Location: urlsplit (+ IDNA of the host), urlunsplit and urljoin are opaque parameters of location_ascii with the assumed laws UrlLaws (ASCII scheme / host out of urlsplit+IDNA; urlunsplit and urljoin map ASCII inputs to ASCII output) - checked on the real functions for every case of the stream; the quoting in between is C15's iriToUri (Props/C15.lean iriToUri_ascii); get_current_url is opaque (its result goes through iri_to_uri before urljoin, as in the code); the driver receives the converted values from the harness, which applies the same library calls",
         "str(value) of non-text header values and dump_options_header for the keyword form of add/set are applied by the caller of the model",
         "the close model is an effect log (which close actions the returned iterable's close() runs); generator finalisation is observed through inspect.getgeneratorstate",
         "known finding F05: Response(direct_passthrough=True) returns the raw iterable for non-bodyless responses, call_on_close callbacks never run",
+        "known finding F05b: Response.freeze() consumes a streamed body whose iterable has close() without taking the close over (make_sequence does): the iterable's close never runs (negation witness freeze_loses_wrapped_close_full_false; freeze_partial covers the other body shapes)",
+        "histories on one response object (Model.Response.nextEv: call_on_close before/after get_wsgi_response, get_data, make_sequence, freeze, set_data, close()/with, the server pulling any prefix and closing; implicit_sequence_conversion / automatically_set_content_length on or off) are tied to the code by stream response-history; generate_etag (SHA-1) is opaque (the harness supplies the digest); generator and file-wrapper bodies are exercised by stream wsgi-response only (their close is observed through CPython finalisation, not counted)",
+        "Response.from_app / force_type(app, environ) (test.run_wsgi_app): the outer body is modelled as a closable stream whose close is the inner ClosingIterator's (driver fromapp, stream from-app); Response.__call__ is get_wsgi_response + start_response (no state of its own)",
+        "int(code_str) in _clean_status is C06's Http.pyInt (white space, sign, '_' separators; exact on latin-1 text)",
     ],
     trusted_extra=["CPython generator / iterator protocol (observed by the stream, not modelled beyond the effect log)"],
     quick_budget=60000,
@@ -421,8 +879,8 @@ CHECK = Check(
 )
 
 MANIFEST = {
-    "level_text": "Machine-checked Lean 4 theorems: every Headers mutator history keeps all stored values CR/LF-free and a mutator given such a value fails (atomic ones leave the list unchanged); body suppression and Content-Length stripping decided by decide +kernel over a table regenerated by exhaustively evaluating the real get_wsgi_headers / get_app_iter over status 100..599 x method x preset x body kind; computed Content-Length = bytes of the encoded items; Location / Content-Location handed to the server are ASCII for every input (location_ascii, on top of C15's iriToUri_ascii); close-exactly-once in an effect model (partial: direct passthrough excluded, F05). Model tied to the code by the wsgi-response correspondence stream; the property oracle runs on the real WSGI output.",
-    "level_note": "Trusted: Lean kernel; extract.py; harness; urlsplit/IDNA, urlunsplit, urljoin opaque with the assumed ASCII laws (validated on every stream case), quoting = C15 model. Known finding F05.",
+    "level_text": "Machine-checked Lean 4 theorems: every Headers mutator history keeps all stored values CR/LF-free and a mutator given such a value fails (atomic ones leave the list unchanged); body suppression and Content-Length stripping decided by decide +kernel over a table regenerated by exhaustively evaluating the real get_wsgi_headers / get_app_iter over status 100..599 x method x preset x body kind; computed Content-Length = bytes of the encoded items; Location / Content-Location handed to the server are ASCII for every input (location_ascii, on top of C15's iriToUri_ascii); close-exactly-once in an effect model over whole histories of a response object (callbacks registered before and after get_wsgi_response, get_data / make_sequence on the side, any prefix pulled; partial: direct passthrough excluded, F05; freeze() of a closable streamed body excluded, F05b) and through Response.from_app / force_type. Model tied to the code by the wsgi-response, response-history and from-app correspondence streams; the property oracle runs on the real WSGI output.",
+    "level_note": "Trusted: Lean kernel; extract.py; harness; urlsplit/IDNA, urlunsplit, urljoin opaque with the assumed ASCII laws (validated on every stream case), quoting = C15 model. Known findings F05, F05b.",
     "technique": "Lean 4 proof (induction over mutator histories, decide +kernel over a regenerated exhaustive table, effect-log model) + model/code correspondence",
     "design_ref": "DESIGN.md section 4, C05",
 }
